@@ -172,5 +172,8 @@ PROPS["C10"] = {**PROPS["C10"],
     "classes": PROPS["C10"]["classes"] + ["C16.two-actions-applied-against-the-same-hand-state", "C16.accepted-actions-and-applied-backend-calls-differ",
                                           "C16.action-accepted-from-a-player-whose-turn-it-was-not"],
     "modes": {**PROPS["C10"]["modes"],
+              # (round 7: since the wrapper returns the state a move produced — D35 — a hand whose *current* state lags behind is
+              # visible only to the next caller; the action bursts are part of the quick tier too)
+              "quick": PROPS["C10"]["modes"]["quick"] + [{"mode": "conc", "args": ["-n", 0, "-actions", 12, "-sm", 0], "timeout": 900}],
               "thorough": PROPS["C10"]["modes"]["thorough"] + [{"mode": "conc", "args": ["-n", 0, "-actions", 200, "-sm", 0, "-workers", 14], "timeout": 2000}],
               "search": PROPS["C10"]["modes"]["search"] + [{"mode": "conc", "args": ["-n", 0, "-actions", 40, "-sm", 0, "-workers", 14], "timeout": 1500}]}}
